@@ -2,7 +2,7 @@
 from pyvc.run import Prop
 from pyvc.contracts import REGISTRY
 import contracts  # noqa
-from contracts.parser import RC, PTV, parsetag_equivalence, ST, HT
+from contracts.parser import RC, PTV, parsetag_equivalence, ST, HT, epfs_arguments
 from contracts.dt_var import SIMPLE
 from native import c07 as native_c07
 
@@ -39,8 +39,8 @@ def _bounded(tier):
 PROP = Prop(
     'C07',
     contracts=[REGISTRY[RC + '.search#M']] + [REGISTRY[k] for k in PTV + SIMPLE],
-    claims=['*::C07.*', 'C07.relational.*', 'C07.structural.*', '*::C03.simple_form'],
-    structural=[_shared_compiler, parsetag_equivalence],
+    claims=['*::C07.*', 'C07.relational.*', 'C07.structural.*', 'C07.epfs.*', '*::C03.simple_form'],
+    structural=[_shared_compiler, parsetag_equivalence, epfs_arguments],
     native_default=native_c07.native_for,
     bounded=[_bounded],
     assumptions=['the EPFS tag regex and the SSI / dtml scanner deliver the same (name, args, end?) fields for the same abstract tag: not proved '
